@@ -22,4 +22,4 @@ for s in $SEEDS; do
   git -C /repo checkout -- . 
 done
 # evidence files now describe mutated trees: restore them by re-running nothing here; the caller re-runs checks on the clean tree
-(cd /verif/harness && cargo build --release --offline >/dev/null 2>&1)  # leave a clean-tree build behind
+./build.sh harness; ./build.sh cli  # leave a clean-tree build behind
